@@ -65,6 +65,7 @@ def canon_case(inp):
         r = {"cfg": "view=%s,stoich=%s" % ("bipartite" if cfg["rule"] else "species", cfg["stoich"]),
              "bipartite": bool(cfg["rule"]), "stoich": bool(cfg["stoich"]),
              "nets": [{"sp": n_["sp"], "rx": n_["rx"]} for n_ in nets], "align": [], "align_plain": [],
+             "wl_cg": [], "wl_orbits": [],
              "view": [], "cg": [], "cgids": [], "naut": [], "orbits": [], "aut_naut": [], "aut_orbits": [], "view_plain": []}
         for net, H in zip(nets, built):
             C = CRNCanonicalizer(H, include_rule=cfg["rule"], include_stoich=cfg["stoich"])
@@ -80,6 +81,13 @@ def canon_case(inp):
             r["cgids"].append([repr(x) for x in cids])
             r["naut"].append(int(s["automorphism_count"]))
             r["orbits"].append([sorted(idx[v] for v in o) for o in s["orbits"]])
+            from synkit.CRN.Topo.wl_canon import WLCanonicalizer
+            W = WLCanonicalizer(H, include_rule=cfg["rule"], include_stoich=cfg["stoich"])
+            ws = W.summary()
+            widx = {v: k + 1 for k, v in enumerate(list(W.G.nodes()))}
+            wcg = ws["canon_graph"]
+            r["wl_cg"].append(project_d(wcg, na, ea, coder, sorted(wcg.nodes(), key=lambda x: (str(type(x)), x))))
+            r["wl_orbits"].append([sorted(idx[v] for v in o) for o in ws["orbits"]])
             A = CRNAutomorphism(H, include_rule=cfg["rule"], include_stoich=cfg["stoich"])
             GA = A.G
             ida = list(GA.nodes())
@@ -139,15 +147,15 @@ def run(ctx: core.Ctx) -> None:
     q, rng = ctx.quick, ctx.rng
     gen = core.tlc_generate(ctx, "NetGen", {"MaxCoef": "1" if q else "2", "MaxRx": "2", "Dup": "FALSE"}, label="exhaustive")
     nets = [crnlib.norm_net(n) for n in gen]
-    if len(nets) > (1200 if q else 10 ** 9):
-        nets = rng.sample(nets, 1200)
+    if len(nets) > (700 if q else 10 ** 9):
+        nets = rng.sample(nets, 700)
     else:
         ctx.exhaustive = True
     core.run_stage(ctx, S("all-small-networks", [fam(n, rng, rng.choice(nets)) for n in nets]))
     sym = [ring(n) for n in (2, 3, 4, 5, 6, 6, 6)] + [ring(3, 2), crnlib.parse(["A>>B", "A>>C"]), crnlib.parse(["A+B>>C", "C>>A+B"]),
                                                crnlib.parse(["A>>B", "B>>A", "C>>D", "D>>C"]), crnlib.parse(["2A>>B", "2C>>B"]),
                                                crnlib.parse(["A+B>>C+D"]), crnlib.parse(["A>>B", "A>>B"])]
-    core.run_stage(ctx, S("symmetric-families", [fam(n, rng, rng.choice(sym)) for n in sym for _ in range(2)]))
+    core.run_stage(ctx, S("symmetric-families", [fam(n, rng, rng.choice(sym)) for n in sym for _ in range(1 if q else 3)]))
     rnd = []
     for _ in range(120 if q else 5000):
         n = crnlib.random_net(rng, 6, 5, 2)
